@@ -68,8 +68,13 @@ def schedule_task():
             h.current_iteration = st.SymScalar(k.sym[()], torch.int64)
             h.algo_parameters = dict(h.algo_parameters, n_burn_in_iter=st.SymScalar(b.sym[()], torch.int64), burn_in_step_power=st.SymScalar(p.sym[()], torch.float32))
             h.sufficient_statistics = dict(prev)
+            # the temperature of the annealing mixin is arbitrary (>= 1) at this iteration: the schedule must not depend on it
+            temp = st.sym("temperature", ())
+            T.assume(temp.sym[()] >= 1)
+            h.temperature = st.SymScalar(temp.sym[()], torch.float32)
+            h.temperature_inv = st.SymScalar(1 / temp.sym[()], torch.float32)
             model = _ModelStub(fresh)
-            hold.update(k=k, b=b, p=p, prev=prev, fresh=fresh, h=h, model=model)
+            hold.update(k=k, b=b, p=p, prev=prev, fresh=fresh, h=h, model=model, temp=temp)
             h._maximization_step(model, None)
             return "done"
 
@@ -84,6 +89,12 @@ def schedule_task():
             def rp(m_):
                 kv, bv, pv = int(round(model_value(m_, kt))), int(round(model_value(m_, bt))), float(model_value(m_, pt))
                 cfgs = ([(kv, bv, pv)] if 1 <= kv <= 40 and 0 <= bv else []) + [(6, b_, q_) for b_ in range(7) for q_ in (0.75, 1.0)]
+                try:
+                    hot = float(model_value(m_, hold["temp"].sym[()])) > 1
+                except Exception:
+                    hot = False
+                if hot:  # the counterexample has the annealing still hot: replay real runs with annealing on
+                    return _runs_replay([(12, b_, q_) for b_ in range(7) for q_ in (0.75, 1.0)], n_runs=1, annealing=True)
                 return _runs_replay(cfgs, n_runs=1)
 
             got = h.sufficient_statistics
@@ -143,7 +154,7 @@ def _tiny_fit_setup():
     return model, dataset
 
 
-def _runs_replay(cfgs, n_runs):
+def _runs_replay(cfgs, n_runs, annealing=False):
     """real TensorMcmcSaemAlgorithm._run (real loop, samplers, maximization step) on a real tiny model whose statistics are replaced by
     recorded random tensors; the same algorithm object is run `n_runs` times; every iteration is compared with the documented schedule"""
     return f"""
@@ -156,7 +167,8 @@ rows = [(f"s{{i}}", 60.0 + 2 * j + i, float(np.clip(0.2 + 0.06 * j + 0.01 * i, 0
 dataset = Dataset(Data.from_dataframe(pd.DataFrame(rows, columns=["ID", "TIME", "a", "b"])))
 bad = []
 for K, B, P in {cfgs!r}:
-    algo = algorithm_factory(AlgorithmSettings("mcmc_saem", n_iter=K, n_burn_in_iter=B, burn_in_step_power=P, seed=0, progress_bar=False))
+    ann = dict(annealing=dict(do_annealing=True, initial_temperature=8.0, n_plateau=5, n_iter_frac=0.8)) if {annealing!r} else {{}}
+    algo = algorithm_factory(AlgorithmSettings("mcmc_saem", n_iter=K, n_burn_in_iter=B, burn_in_step_power=P, seed=0, progress_bar=False, **ann))
     for run in range({n_runs}):
         model = LogisticModel("logistic", source_dimension=1); model.initialize(dataset)
         log = []
